@@ -19,12 +19,13 @@ EXTENDS Lifecycle, Json, IOUtils
 Nodes == ndJsonDeserialize(IOEnv.LC_NODES)
 Cases == JsonDeserialize(IOEnv.LC_CASES)
 Plan  == Cases.plan
-K == WithSwitches(WithCrash(MkK(Plan.D, Plan.S, Plan.W, Plan.maxd, SeqToSet(Plan.cd), SeqToSet(Plan.kinds), Plan.pairs,
-         SeqToSet(Plan.bury), Plan.rev, Plan.mir, Plan.mode, Plan.empty), Plan.crash), Plan.markFirst, Plan.dropOrphans)
+K == WithDeep(WithSwitches(WithCrash(MkK(Plan.D, Plan.S, Plan.W, Plan.maxd, SeqToSet(Plan.cd), SeqToSet(Plan.kinds), Plan.pairs,
+         SeqToSet(Plan.bury), Plan.rev, Plan.mir, Plan.mode, Plan.empty), Plan.crash), Plan.markFirst, Plan.dropOrphans),
+         Plan.DX, SeqToSet(Plan.around))
 Reqs == Cases.requests
 RC(c) == CASE c = 1 -> "ok" [] c = 2 -> "panic" [] OTHER -> "err"
 
-ChanFields == {"ph", "bh", "fg", "fh", "dsh", "mch", "uch", "ct", "our", "ht", "sl", "csh"}
+ChanFields == {"ph", "bh", "fg", "fh", "dsh", "mch", "uch", "ct", "our", "ht", "sl", "csh", "oosh"}
 Abs(p) == [h |-> p.h, hw |-> p.hw, ev |-> p.ev, mark |-> p.mark, su |-> SeqToSet(p.su),
            chans |-> [d \in 1..K.maxd |-> [f \in ChanFields |-> p.chans[d][f]]]]
 ObsOf(p) == [h |-> p.h, ph |-> [d \in 1..K.maxd |-> p.chans[d].ph]]
@@ -104,6 +105,22 @@ KeptAtDepth(x) == EdgesWhere(LAMBDA nd, e : e[1] >= 0 /\ Reqs[e[2]].op = "Heartb
                       ee == Max2(Max2(c.dsh, c.mch), c.csh) IN
                   c.ph = "ready" /\ c.fg /\ ee # -1 /\ nd.pre.h + 1 - ee = x
                   /\ Nodes[e[1] + 1].pre.chans[d].ph = "ready")
+\* VERY DEEP BURIAL: heartbeats in a state where a ready channel's latest on-chain event has x or more
+\* confirmations and the monitor holds no event that suffices for discarding the channel (no double-spend,
+\* no mutual close, the close - if any - not fully swept).  Which of them kept the channel is counted per
+\* situation; the check demands that each situation was exercised at MAX_CLOSING_DEPTH and beyond.
+\*   "funding"  funding confirmed, no close          "closing"  unilateral close, main output unswept
+\*   "ourswept" unilateral close, the node's main output swept (oosh set), an HTLC-side output unswept
+LastEvH(p) == IF p.ev = <<>> THEN -1 ELSE p.ev[Len(p.ev)].h
+Insufficient(c, sit) ==
+  /\ c.ph = "ready" /\ c.dsh = -1 /\ c.mch = -1 /\ c.csh = -1 /\ c.fh # -1
+  /\ CASE sit = "funding"  -> c.uch = -1
+       [] sit = "closing"  -> c.uch # -1 /\ c.oosh = -1
+       [] sit = "ourswept" -> c.uch # -1 /\ c.oosh # -1
+KeptDeep(x, sit, fg) == EdgesWhere(LAMBDA nd, e : e[1] >= 0 /\ Reqs[e[2]].op = "Heartbeat" /\ \E d \in 1..K.maxd :
+                  LET c == nd.pre.chans[d] IN
+                  Insufficient(c, sit) /\ c.fg = fg /\ LastEvH(nd.pre) # -1 /\ nd.pre.h + 1 - LastEvH(nd.pre) >= x
+                  /\ Nodes[e[1] + 1].pre.chans[d].ph = "ready")
 RefusedNew  == EdgesWhere(LAMBDA nd, e : Reqs[e[2]].op = "New" /\ e[3] = 0)
 Tainted     == {i \in DOMAIN Nodes : Nodes[i].r0 = 0 /\ ~Nodes[i].pre.dead}
 RestartBad  == {i \in DOMAIN Nodes : ~Nodes[i].pre.dead /\ ~RestartEq(Nodes[i])}
@@ -129,6 +146,11 @@ Report == [ nodes |-> Len(Nodes), edges |-> NEdges, root_ok |-> RootOk,
             restart_bad_states |-> Cardinality(RestartBad),
             restore_fails_states |-> Cardinality(RestoreFails),
             mixed_prune_edges |-> Cardinality(MixedPrune),
-            mixed_prune_stub_above_edges |-> Cardinality(MixedPruneStubAbove) ]
+            mixed_prune_stub_above_edges |-> Cardinality(MixedPruneStubAbove),
+            kept_beyond_DX_funding_only  |-> Cardinality(KeptDeep(K.DX, "funding", TRUE)),
+            kept_beyond_DX_close_unswept |-> Cardinality(KeptDeep(K.DX, "closing", TRUE)),
+            kept_beyond_DX_main_output_swept |-> Cardinality(KeptDeep(K.DX, "ourswept", TRUE)),
+            kept_beyond_DX_not_asked |-> Cardinality(KeptDeep(K.DX, "funding", FALSE) \cup KeptDeep(K.DX, "closing", FALSE)
+                                                     \cup KeptDeep(K.DX, "ourswept", FALSE)) ]
 ASSUME JsonSerialize(IOEnv.LC_REPORT, Report)
 =============================================================================
